@@ -82,6 +82,8 @@ impl Vector<f64> {
             return result;
         }*/
         let chunk_size = self.size() / num_threads;
+        #[cfg(feature = "verif")]
+        let verif_log = crate::verif::DotLog::begin( self.size(), num_threads );
         std::thread::scope(|s| {
             let mut threads = Vec::new();
             for i in 0..num_threads {
@@ -89,12 +91,16 @@ impl Vector<f64> {
                 let end = if i == num_threads - 1 { self.size() } else { (i + 1) * chunk_size };
                 let self_slice = &self.vec[start..end];
                 let w_slice = &w.vec[start..end];
+                #[cfg(feature = "verif")]
+                let verif_slot = verif_log.chunk( i, start, end );
                 
                 threads.push( s.spawn(|| {
                     let mut result: f64 = 0.0;
                     for i in 0..self_slice.len() {
                         result += self_slice[i] * w_slice[i];
                     }
+                    #[cfg(feature = "verif")]
+                    verif_slot.done();
                     result
                 }));
             }
@@ -103,6 +109,8 @@ impl Vector<f64> {
             for thread in threads {
                 result += thread.join().unwrap();
             }
+            #[cfg(feature = "verif")]
+            verif_log.end();
             result
         })
     }
